@@ -441,3 +441,16 @@ func CellLoadsStoredIn(cl *ssa.Function, typeName string) func(fn *ssa.Function)
 		return out
 	}
 }
+
+// ConstV matches a constant operand whose value equals the package-level constant pkgRel.name (the compiler folds
+// `name + other` into one constant, so a widened bound no longer matches).
+func (p *Prog) ConstV(pkgRel, name string) VPat {
+	want, ok := p.ConstValue(pkgRel, name)
+	return VPat{"the constant " + name, func(v ssa.Value) bool {
+		if !ok {
+			return false
+		}
+		c, isC := stripConv(v).(*ssa.Const)
+		return isC && c.Value != nil && constString(c.Value) == want
+	}}
+}
